@@ -321,6 +321,9 @@ type FbCase struct {
 	W       int    `json:"w"`
 	H       int    `json:"h"`
 	Ops     []FbOp `json:"ops"`
+	// PreInit: register / unregister calls made on the new screen before Init
+	// (an application configuring its fallbacks first)
+	PreInit []FbOp `json:"pre_init,omitempty"`
 }
 
 var fbRunes = []rune{'é', 'Ω', '€', 'Ж', '─', '│', '┌', '█', '°', '£', 'π', '→', '世', '界', 'あ', '😀', 'A', '~', '·', '≠', 'ß', '‰', '♥'}
@@ -354,6 +357,15 @@ func genFb(t *rapid.T) FbCase {
 		}
 	}
 	c.Ops = append(c.Ops, FbOp{Kind: "sync"})
+	if rapid.IntRange(0, 3).Draw(t, "preinit") == 0 {
+		for i, n := 0, rapid.IntRange(1, 3).Draw(t, "npre"); i < n; i++ {
+			if rapid.Bool().Draw(t, "preunreg") {
+				c.PreInit = append(c.PreInit, FbOp{Kind: "unregister", R: rapid.SampledFrom(fbRunes).Draw(t, "pur")})
+			} else {
+				c.PreInit = append(c.PreInit, FbOp{Kind: "register", R: rapid.SampledFrom(fbRunes[:12]).Draw(t, "prr"), S: rapid.SampledFrom([]string{"x", "#", "o"}).Draw(t, "prs")})
+			}
+		}
+	}
 	return c
 }
 
@@ -362,11 +374,20 @@ func fbProp(c FbCase) error {
 	if err != nil {
 		return err
 	}
+	fb := defaultFallbacks()
+	for _, op := range c.PreInit {
+		if op.Kind == "register" {
+			r.Screen.RegisterRuneFallback(op.R, op.S)
+			fb[op.R] = op.S
+		} else {
+			r.Screen.UnregisterRuneFallback(op.R)
+			delete(fb, op.R)
+		}
+	}
 	if err := r.Init(); err != nil {
 		return err
 	}
 	defer r.Close()
-	fb := defaultFallbacks()
 	// fallbacks in force when each cell was last painted are what it shows: only
 	// full repaints (Sync) are compared after registration changes
 	dirtyFb := false
